@@ -392,20 +392,23 @@ def outcome_exc(e):
     info = exc_info(e)
     s = "exc:" + info["type"]
     if info["undefined_name"]:
-        s += ":UNDEFINED:" + info["msg"][:160]
+        s += ":UNDEFINED:" + _ADDR.sub("ADDR", info["msg"][:160])
     return s
 
 
 def attempt(fn, *a, **kw):
-    signal.setitimer(signal.ITIMER_REAL, 2.0)
+    # CPU-time budget (a loaded machine must not change the outcome) plus a generous wall-clock one
+    signal.setitimer(signal.ITIMER_VIRTUAL, 2.0)
+    signal.setitimer(signal.ITIMER_REAL, 30.0)
     try:
         r = fn(*a, **kw)
-        return True, r, summarise(r)
+        return True, r, _ADDR.sub("ADDR", summarise(r))
     except _Timeout:
         return False, None, "timeout"
     except BaseException as e:   # noqa
         return False, None, outcome_exc(e)
     finally:
+        signal.setitimer(signal.ITIMER_VIRTUAL, 0)
         signal.setitimer(signal.ITIMER_REAL, 0)
 
 
@@ -479,18 +482,36 @@ def exercise_instance(label, obj, res, budget):
             res[f"{label}.{meth}()"] = attempt(bound)[2]
 
 
+ATOMS = [0, 1, 2, -1, 3, 2.5, "a", "a.b", "x", "b.c.d", "{{a}}", "{{a.b}}", "", None, True, False, [], [0, 1, 2],
+         [1, 2, 3, 4], {}, {"a": 1}, {"a": {"b": 1}}, {"variable": {"name": "x"}}, (), (1, {}), (1, {"a": {"b": 2}}),
+         _ident, _true, _raise_key, int, list, "recreate", [(0, 1), (1, 2)], [[0, 1], [0, 1]]]
+RANDOM = {"n": 0, "seed": 0}
+
+
+def random_calls(name):
+    import random
+    rng = random.Random(f"{RANDOM['seed']}:{name}")
+    out = []
+    for k in range(RANDOM["n"]):
+        a = tuple(rng.choice(ATOMS) for _ in range(rng.choice([0, 1, 1, 2, 2, 3, 4])))
+        out.append((f"r{k}", a, {}))
+    return out
+
+
 def exercise(pkgmod, name, extra_instances):
     res = {}
     try:
         obj = getattr(pkgmod, name)
     except BaseException as e:   # noqa
-        return {"getattr": outcome_exc(e)}
+        return {f"getattr({name})": outcome_exc(e)}
     res["kind"] = "class" if isinstance(obj, type) else ("callable" if callable(obj) else "value:" + summarise(obj))
     if not callable(obj):
         return res
     budget = [400]
     built = 0
-    calls = [(f"a{k}", a, {}) for k, a in enumerate(ARGS)] + KWARGS
+    calls = [(f"a{k}", a, {}) for k, a in enumerate(ARGS)] + KWARGS + random_calls(name)
+    if RANDOM["n"]:
+        budget[0] = 1500
     # elements as arguments of other elements
     for k, inst in enumerate(extra_instances[:4]):
         calls.append((f"el{k}", (inst,), {}))
@@ -498,7 +519,8 @@ def exercise(pkgmod, name, extra_instances):
     for lab, a, kw in calls:
         ok, r, summ = attempt(obj, *a, **kw)
         res[f"{name}({lab})"] = summ
-        if ok and isinstance(obj, type) and isinstance(r, obj) and built < 6 and not isinstance(r, BaseException):
+        if ok and isinstance(obj, type) and isinstance(r, obj) and built < (20 if RANDOM["n"] else 6) \
+                and not isinstance(r, BaseException):
             built += 1
             exercise_instance(f"{name}({lab})", r, res, budget)
         elif ok and not isinstance(obj, type) and built < 3 and r is not None and \
@@ -509,9 +531,12 @@ def exercise(pkgmod, name, extra_instances):
 
 
 def behaviour_probe(repo, pkg, full, subpackages):
+    import shutil
     import tempfile
-    os.chdir(tempfile.mkdtemp(prefix="c20probe"))
+    tmp = tempfile.mkdtemp(prefix="c20probe")
+    os.chdir(tmp)
     signal.signal(signal.SIGALRM, _alarm)
+    signal.signal(signal.SIGVTALRM, _alarm)
     out = {"pkg": pkg, "full": full}
     real_stdout = sys.stdout
     sys.stdout = io.StringIO()
@@ -560,6 +585,8 @@ def behaviour_probe(repo, pkg, full, subpackages):
         out["fatal"] = exc_info(e)
     finally:
         sys.stdout = real_stdout
+        os.chdir("/")
+        shutil.rmtree(tmp, ignore_errors=True)
     return out
 
 
@@ -567,6 +594,8 @@ def main():
     repo, mode, pkg = sys.argv[1], sys.argv[2], sys.argv[3]
     sys.path.insert(0, repo)
     subpackages = json.loads(sys.argv[4])
+    if len(sys.argv) > 5:
+        RANDOM.update(json.loads(sys.argv[5]))
     if mode == "static":
         out = static_probe(repo, pkg, subpackages)
     else:
